@@ -284,7 +284,7 @@ fn analyze_change<'a>(
                                 .into_iter()
                                 .for_each(|target2: String| {
                                     if !ignore_targets.contains(target2.as_str()) {
-                                        targets.insert(target.to_string());
+                                        targets.insert(target2.to_string());
                                         update_change_targets(
                                             &mut change_targets,
                                             &target2,
